@@ -121,14 +121,6 @@ Qed.
 
 (* ---- effect points from the greedy check ------------------------------------ *)
 
-Definition pts_ok (h : history) (lin : list opid) (pt : list nat) : Prop :=
-  length pt = length lin /\
-  (forall x id p, nth_error lin x = Some id -> nth_error pt x = Some p ->
-      exists i o, find_inv h id = Some (i, o) /\ i < p) /\
-  (forall x id p j r, nth_error lin x = Some id -> nth_error pt x = Some p ->
-      find_comp h id = Some (j, r) -> p <= j) /\
-  (forall x y p q, x < y -> nth_error pt x = Some p -> nth_error pt y = Some q -> p <= q).
-
 Lemma prec_ok_pts : forall h lin m,
   prec_ok h m lin = true ->
   exists pt, pts_ok h lin pt /\ (forall x p, nth_error pt x = Some p -> m < p).
@@ -198,4 +190,651 @@ Lemma check_witness_sound_proved : forall h order,
 Proof.
   intros h order H. apply check_witness_linearizes in H. destruct H as [Hwf Hl].
   split; [exact Hwf|]. exists order. exact Hl.
+Qed.
+
+(* ========================================================================== *)
+(* Composition: the replicated log (with each read placed after the prefix it
+   observed) is a linearization, given the protocol-level properties.          *)
+(* ========================================================================== *)
+
+(* ---- generic list facts ---------------------------------------------------- *)
+
+Lemma FOP_impl_In : forall (A : Type) (R R' : A -> A -> Prop) l,
+  ForallOrdPairs R l ->
+  (forall a b, In a l -> In b l -> R a b -> R' a b) ->
+  ForallOrdPairs R' l.
+Proof.
+  intros A R R' l H. induction H as [|a l Ha Hl IH]; intros Himp.
+  - constructor.
+  - constructor.
+    + rewrite Forall_forall in *. intros b Hb. apply Himp; [left; reflexivity|right; exact Hb|].
+      apply Ha. exact Hb.
+    + apply IH. intros x y Hx Hy. apply Himp; right; assumption.
+Qed.
+
+Lemma FOP_filter : forall (A : Type) (R : A -> A -> Prop) f l,
+  ForallOrdPairs R l -> ForallOrdPairs R (filter f l).
+Proof.
+  intros A R f l H. induction H as [|a l Ha Hl IH]; cbn.
+  - constructor.
+  - destruct (f a); [|exact IH]. constructor; [|exact IH].
+    rewrite Forall_forall in *. intros b Hb. apply filter_In in Hb. apply Ha. apply Hb.
+Qed.
+
+Lemma FOP_app : forall (A : Type) (R : A -> A -> Prop) l1 l2,
+  ForallOrdPairs R l1 -> ForallOrdPairs R l2 ->
+  (forall a b, In a l1 -> In b l2 -> R a b) ->
+  ForallOrdPairs R (l1 ++ l2).
+Proof.
+  intros A R l1 l2 H1 H2. induction H1 as [|a l Ha Hl IH]; intros Hc; cbn.
+  - exact H2.
+  - constructor.
+    + rewrite Forall_forall in *. intros b Hb. apply in_app_or in Hb. destruct Hb as [Hb|Hb].
+      * apply Ha. exact Hb.
+      * apply Hc; [left; reflexivity|exact Hb].
+    + apply IH. intros x y Hx Hy. apply Hc; [right; exact Hx|exact Hy].
+Qed.
+
+Lemma NoDup_app_intro : forall (A : Type) (l1 l2 : list A),
+  NoDup l1 -> NoDup l2 -> (forall a, In a l1 -> ~ In a l2) -> NoDup (l1 ++ l2).
+Proof.
+  intros A l1 l2 H1 H2. induction H1 as [|a l Ha Hl IH]; intros Hd; cbn.
+  - exact H2.
+  - constructor.
+    + intros Hin. apply in_app_or in Hin. destruct Hin as [Hin|Hin]; [exact (Ha Hin)|].
+      apply (Hd a); [left; reflexivity|exact Hin].
+    + apply IH. intros x Hx. apply Hd. right. exact Hx.
+Qed.
+
+Lemma NoDup_filter_keep : forall (A : Type) (f : A -> bool) l, NoDup l -> NoDup (filter f l).
+Proof.
+  intros A f l H. induction H as [|a l Ha Hl IH]; cbn; [constructor|].
+  destruct (f a); [|exact IH]. constructor; [|exact IH].
+  intros Hin. apply filter_In in Hin. apply Ha. apply Hin.
+Qed.
+
+Lemma nth_error_app_len : forall (A : Type) (pre : list A) x t,
+  nth_error (pre ++ x :: t) (length pre) = Some x.
+Proof.
+  intros A pre x t. rewrite nth_error_app2 by lia. rewrite Nat.sub_diag. reflexivity.
+Qed.
+
+(* ---- more about positions ---------------------------------------------------- *)
+
+Lemma In_inv_ids_find : forall h1 rest id,
+  In id (inv_ids h1) -> exists i o, find_inv (h1 ++ rest) id = Some (i, o) /\ i < length h1.
+Proof.
+  induction h1 as [|e t IH]; intros rest id Hin; [destruct Hin|].
+  destruct e as [i0 o0|i0 oc0]; cbn in Hin |- *.
+  - destruct (N.eqb i0 id) eqn:E.
+    + exists 0, o0. split; [reflexivity|lia].
+    + destruct Hin as [Hin|Hin]; [apply N.eqb_neq in E; contradiction|].
+      destruct (IH rest id Hin) as [i [o [Hf Hlt]]]. exists (S i), o. rewrite Hf. cbn. split; [reflexivity|lia].
+  - destruct (IH rest id Hin) as [i [o [Hf Hlt]]]. exists (S i), o. rewrite Hf. cbn. split; [reflexivity|lia].
+Qed.
+
+Lemma find_resp_split : forall h id j oc,
+  find_resp h id = Some (j, oc) -> exists h1 h2, h = h1 ++ Resp id oc :: h2 /\ length h1 = j.
+Proof.
+  induction h as [|e t IH]; cbn; intros id j oc H; [discriminate|].
+  destruct e as [i0 o0|i0 oc0].
+  - apply shift_Some in H. destruct H as [n' [-> H]].
+    destruct (IH _ _ _ H) as [h1 [h2 [E L]]]. exists (Inv i0 o0 :: h1), h2. subst. split; reflexivity.
+  - destruct (N.eqb i0 id) eqn:E.
+    + apply N.eqb_eq in E. inversion H; subst. exists [], t. split; reflexivity.
+    + apply shift_Some in H. destruct H as [n' [-> H]].
+      destruct (IH _ _ _ H) as [h1 [h2 [E' L]]]. exists (Resp i0 oc0 :: h1), h2. subst. split; reflexivity.
+Qed.
+
+Lemma find_comp_resp : forall h id j r, find_comp h id = Some (j, r) -> find_resp h id = Some (j, Completed r).
+Proof.
+  intros h id j r H. unfold find_comp in H.
+  destruct (find_resp h id) as [[j' oc]|]; [|discriminate].
+  destruct oc; try discriminate. inversion H; subst. reflexivity.
+Qed.
+
+Lemma wf_inv_before_comp : forall h id j r,
+  wf_hist h -> find_comp h id = Some (j, r) ->
+  exists i o, find_inv h id = Some (i, o) /\ i < j.
+Proof.
+  intros h id j r [_ [_ Hw]] Hc. apply find_comp_resp in Hc.
+  destruct (find_resp_split _ _ _ _ Hc) as [h1 [h2 [E L]]].
+  specialize (Hw h1 id (Completed r) h2 E).
+  destruct (In_inv_ids_find h1 (Resp id (Completed r) :: h2) id Hw) as [i [o [Hf Hlt]]].
+  exists i, o. rewrite E. split; [exact Hf|lia].
+Qed.
+
+Lemma inv_ids_find_some : forall h id, In id (inv_ids h) -> exists i o, find_inv h id = Some (i, o).
+Proof.
+  intros h id Hin. destruct (In_inv_ids_find h [] id Hin) as [i [o [Hf _]]].
+  rewrite app_nil_r in Hf. exists i, o. exact Hf.
+Qed.
+
+Lemma inv_pos_cons_other : forall e t b,
+  In b (inv_ids t) -> (forall o, e <> Inv b o) -> inv_pos (e :: t) b = S (inv_pos t b).
+Proof.
+  intros e t b Hin Hne. destruct (inv_ids_find_some t b Hin) as [i [o Hf]].
+  unfold inv_pos. cbn. destruct e as [i0 o0|i0 oc0].
+  - destruct (N.eqb i0 b) eqn:E.
+    + apply N.eqb_eq in E. subst. exfalso. apply (Hne o0). reflexivity.
+    + rewrite Hf. reflexivity.
+  - rewrite Hf. reflexivity.
+Qed.
+
+Lemma inv_ids_sorted : forall h,
+  NoDup (inv_ids h) -> ForallOrdPairs (fun a b => inv_pos h a < inv_pos h b) (inv_ids h).
+Proof.
+  induction h as [|e t IH]; intros Hnd; cbn; [constructor|].
+  destruct e as [i0 o0|i0 oc0]; cbn in Hnd.
+  - inversion Hnd as [|x l Hni Hnd']; subst. constructor.
+    + rewrite Forall_forall. intros b Hb.
+      assert (Hb' : inv_pos (Inv i0 o0 :: t) b = S (inv_pos t b)).
+      { apply inv_pos_cons_other; [exact Hb|]. intros o E. inversion E; subst. contradiction. }
+      rewrite Hb'. unfold inv_pos at 1. cbn. rewrite N.eqb_refl. lia.
+    + apply FOP_impl_In with (R := fun a b => inv_pos t a < inv_pos t b); [apply IH; exact Hnd'|].
+      intros a b Ha Hb Hlt.
+      rewrite !inv_pos_cons_other; try assumption; try lia.
+      * intros o E. inversion E; subst. contradiction.
+      * intros o E. inversion E; subst. contradiction.
+  - apply FOP_impl_In with (R := fun a b => inv_pos t a < inv_pos t b); [apply IH; exact Hnd|].
+    intros a b Ha Hb Hlt.
+    rewrite !inv_pos_cons_other; try assumption; try lia.
+    + intros o E. discriminate.
+    + intros o E. discriminate.
+Qed.
+
+(* ---- greedy check from pairwise precedence ----------------------------------- *)
+
+Definition precedes_ok (h : history) (a b : opid) : Prop :=
+  forall j r, find_comp h b = Some (j, r) -> inv_pos h a < j.
+
+Lemma prec_ok_of_pairs : forall h lin m,
+  (forall a, In a lin -> exists i o, find_inv h a = Some (i, o)) ->
+  (forall b j r, In b lin -> find_comp h b = Some (j, r) -> m < j) ->
+  (forall a, In a lin -> precedes_ok h a a) ->
+  ForallOrdPairs (precedes_ok h) lin ->
+  prec_ok h m lin = true.
+Proof.
+  intros h. induction lin as [|a t IH]; intros m Hinv Hm Hself Hfop; [reflexivity|].
+  cbn. destruct (Hinv a (or_introl eq_refl)) as [i [o Hf]]. rewrite Hf.
+  inversion Hfop as [|x l Ha Ht]; subst.
+  assert (Hpos : inv_pos h a = i) by (unfold inv_pos; rewrite Hf; reflexivity).
+  assert (Hrest : prec_ok h (Nat.max m i) t = true).
+  { apply IH.
+    - intros x Hx. apply Hinv. right. exact Hx.
+    - intros b j r Hb Hc. rewrite Forall_forall in Ha.
+      specialize (Ha b Hb j r Hc). specialize (Hm b j r (or_intror Hb) Hc). lia.
+    - intros x Hx. apply Hself. right. exact Hx.
+    - exact Ht. }
+  destruct (find_comp h a) as [[j r]|] eqn:Hc; [|exact Hrest].
+  rewrite Hrest, andb_true_r. apply Nat.ltb_lt.
+  specialize (Hm a j r (or_introl eq_refl) Hc).
+  specialize (Hself a (or_introl eq_refl) j r Hc). lia.
+Qed.
+
+(* every linearization order passes the greedy check: the checker is complete *)
+Lemma pts_prec_ok : forall h lin pt m,
+  pts_ok h lin pt ->
+  (forall x p, nth_error pt x = Some p -> m < p) ->
+  prec_ok h m lin = true.
+Proof.
+  intros h. induction lin as [|a t IH]; intros pt m Hp Hlow; [reflexivity|].
+  destruct Hp as [Hlen [H1 [H2 H3]]].
+  destruct pt as [|p pt']; [discriminate|].
+  cbn. destruct (H1 0 a p eq_refl eq_refl) as [i [o [Hf Hip]]]. rewrite Hf.
+  assert (Hmp : m < p) by (apply (Hlow 0); reflexivity).
+  assert (Hrest : prec_ok h (Nat.max m i) t = true).
+  { apply IH with (pt := pt').
+    - split; [cbn in Hlen; lia|]. split; [|split].
+      + intros x id q Hx Hq. apply (H1 (S x) id q); assumption.
+      + intros x id q j r Hx Hq. apply (H2 (S x) id q j r); assumption.
+      + intros x y q q' Hxy Hq Hq'. apply (H3 (S x) (S y) q q'); [lia|assumption|assumption].
+    - intros x q Hq. specialize (H3 0 (S x) p q (Nat.lt_0_succ x) eq_refl Hq). lia. }
+  destruct (find_comp h a) as [[j r]|] eqn:Hc; [|exact Hrest].
+  rewrite Hrest, andb_true_r. apply Nat.ltb_lt.
+  specialize (H2 0 a p j r eq_refl eq_refl Hc). lia.
+Qed.
+
+(* ---- facts about op_of / is_read / is_write ---------------------------------- *)
+
+Lemma is_read_op : forall h x, is_read h x = true -> exists k, op_of h x = Some (OpRead k).
+Proof.
+  intros h x H. unfold is_read in H. destruct (op_of h x) as [[k v|k]|]; try discriminate.
+  exists k. reflexivity.
+Qed.
+
+Lemma is_write_op : forall h x, is_write h x = true -> exists k v, op_of h x = Some (OpWrite k v).
+Proof.
+  intros h x H. unfold is_write in H. destruct (op_of h x) as [[k v|k]|]; try discriminate.
+  exists k, v. reflexivity.
+Qed.
+
+Lemma op_of_find : forall h x o, op_of h x = Some o -> exists i, find_inv h x = Some (i, o).
+Proof.
+  intros h x o H. unfold op_of in H. destruct (find_inv h x) as [[i o']|]; [|discriminate].
+  inversion H; subst. exists i. reflexivity.
+Qed.
+
+Lemma read_not_write : forall h x, is_read h x = true -> is_write h x = true -> False.
+Proof.
+  intros h x Hr Hw. destruct (is_read_op _ _ Hr) as [k E]. destruct (is_write_op _ _ Hw) as [k' [v E']].
+  rewrite E in E'. discriminate.
+Qed.
+
+Lemma completed_reads_spec : forall h x,
+  In x (completed_reads h) <-> In x (inv_ids h) /\ is_read h x = true /\ is_completed h x = true.
+Proof.
+  intros h x. unfold completed_reads. rewrite filter_In, andb_true_iff. tauto.
+Qed.
+
+Lemma reads_at_spec : forall cr obs k x, In x (reads_at cr obs k) <-> In x cr /\ obs x = k.
+Proof.
+  intros cr obs k x. unfold reads_at. rewrite filter_In, Nat.eqb_eq. tauto.
+Qed.
+
+(* ---- running the specification over reads ------------------------------------ *)
+
+Lemma lin_reads_app : forall h rs l s,
+  (forall x, In x rs -> is_read h x = true) ->
+  lin_state h s (rs ++ l) = lin_state h s l /\
+  (forall p, In p (lin_results h s l) -> In p (lin_results h s (rs ++ l))) /\
+  (forall x k, In x rs -> op_of h x = Some (OpRead k) -> In (x, kv_get s k) (lin_results h s (rs ++ l))).
+Proof.
+  intros h. induction rs as [|x rs IH]; intros l s Hr.
+  - cbn. split; [reflexivity|]. split; [tauto|]. intros x k [].
+  - destruct (is_read_op h x (Hr x (or_introl eq_refl))) as [k Hk].
+    destruct (IH l s (fun y Hy => Hr y (or_intror Hy))) as [I1 [I2 I3]].
+    cbn. rewrite Hk. cbn. split; [exact I1|]. split.
+    + intros p Hp. right. apply I2. exact Hp.
+    + intros y k' [Hy|Hy] Hk'.
+      * subst y. rewrite Hk in Hk'. inversion Hk'; subst. left. reflexivity.
+      * right. apply I3; assumption.
+Qed.
+
+Lemma lin_results_cons_tail : forall h s w l p,
+  (match op_of h w with
+   | Some o => In p (lin_results h (fst (kv_step s o)) l)
+   | None => In p (lin_results h s l)
+   end) -> In p (lin_results h s (w :: l)).
+Proof.
+  intros h s w l p H. cbn. destruct (op_of h w); [right|]; exact H.
+Qed.
+
+Section Weave.
+Variable h : history.
+Variable rds : nat -> list opid.
+Hypothesis rds_reads : forall k x, In x (rds k) -> is_read h x = true.
+
+Lemma weave_In_log : forall t k x, In x t -> In x (weave_from rds k t).
+Proof.
+  induction t as [|w t IH]; intros k x Hin; [destruct Hin|].
+  cbn. apply in_or_app. right. destruct Hin as [->|Hin]; [left; reflexivity|].
+  right. apply IH. exact Hin.
+Qed.
+
+Lemma weave_In_read : forall t k k' x,
+  k <= k' -> k' <= k + length t -> In x (rds k') -> In x (weave_from rds k t).
+Proof.
+  induction t as [|w t IH]; intros k k' x H1 H2 Hin; cbn in *.
+  - replace k with k' by lia. exact Hin.
+  - apply in_or_app. destruct (Nat.eq_dec k k') as [->|Hne]; [left; exact Hin|].
+    right. right. apply (IH (S k) k'); [lia|lia|exact Hin].
+Qed.
+
+Lemma weave_In_inv : forall t k x,
+  In x (weave_from rds k t) -> In x t \/ exists k', k <= k' /\ k' <= k + length t /\ In x (rds k').
+Proof.
+  induction t as [|w t IH]; intros k x Hin; cbn in Hin.
+  - right. exists k. cbn. split; [lia|]. split; [lia|exact Hin].
+  - apply in_app_or in Hin. destruct Hin as [Hin|[->|Hin]].
+    + right. exists k. split; [lia|]. split; [lia|exact Hin].
+    + left. left. reflexivity.
+    + destruct (IH _ _ Hin) as [Ht|[k' [A [B C]]]].
+      * left. right. exact Ht.
+      * right. exists k'. cbn. split; [lia|]. split; [lia|exact C].
+Qed.
+
+Lemma weave_results : forall t k s,
+  lin_state h s (weave_from rds k t) = lin_state h s t /\
+  (forall p, In p (lin_results h s t) -> In p (lin_results h s (weave_from rds k t))) /\
+  (forall k' x key, k <= k' -> k' <= k + length t -> In x (rds k') -> op_of h x = Some (OpRead key) ->
+      In (x, kv_get (lin_state h s (firstn (k' - k) t)) key) (lin_results h s (weave_from rds k t))).
+Proof.
+  induction t as [|w t IH]; intros k s.
+  - cbn [weave_from].
+    destruct (lin_reads_app h (rds k) [] s (rds_reads k)) as [A [B C]].
+    rewrite app_nil_r in *. split; [exact A|]. split; [exact B|].
+    intros k' x key H1 H2 Hin Hop. cbn in H2. replace k' with k in * by lia.
+    rewrite firstn_nil. cbn. apply C; assumption.
+  - cbn [weave_from].
+    destruct (lin_reads_app h (rds k) (w :: weave_from rds (S k) t) s (rds_reads k)) as [A [B C]].
+    split; [|split].
+    + rewrite A. cbn. destruct (op_of h w) as [o|].
+      * apply (IH (S k)).
+      * apply (IH (S k)).
+    + intros p Hp. apply B. cbn in Hp |- *. destruct (op_of h w) as [o|].
+      * destruct Hp as [Hp|Hp]; [left; exact Hp|]. right. apply (IH (S k)). exact Hp.
+      * apply (IH (S k)). exact Hp.
+    + intros k' x key H1 H2 Hin Hop. cbn in H2.
+      destruct (Nat.eq_dec k k') as [E|Hne].
+      * subst k'. rewrite Nat.sub_diag. cbn. apply C; assumption.
+      * apply B. replace (k' - k) with (S (k' - S k)) by lia.
+        apply lin_results_cons_tail. cbn [firstn lin_state].
+        destruct (op_of h w) as [o|].
+        -- apply (IH (S k)); [lia|lia|exact Hin|exact Hop].
+        -- apply (IH (S k)); [lia|lia|exact Hin|exact Hop].
+Qed.
+
+End Weave.
+
+Lemma find_inv_In_ids : forall h id i o, find_inv h id = Some (i, o) -> In id (inv_ids h).
+Proof.
+  induction h as [|e t IH]; cbn; intros id i o H; [discriminate|].
+  destruct e as [i0 o0|i0 oc0].
+  - destruct (N.eqb i0 id) eqn:E.
+    + apply N.eqb_eq in E. left. exact E.
+    + apply shift_Some in H. destruct H as [n' [_ H]]. right. eapply IH. exact H.
+  - apply shift_Some in H. destruct H as [n' [_ H]]. eapply IH. exact H.
+Qed.
+
+Section FromLog.
+Variable h : history.
+Variable log : list opid.
+Variable obs : opid -> nat.
+Variable cmt : nat -> nat.
+Hypothesis Hwf : wf_hist h.
+Hypothesis H05 : C05_at_most_once h log.
+Hypothesis H02 : C02_state_machine_safety h log obs cmt.
+Hypothesis H03 : C03_leader_completeness h log cmt.
+Hypothesis H12 : C12_completed_after_local_apply h log cmt.
+Hypothesis H06 : C06_read_index_not_stale h obs cmt.
+
+Let rds := reads_at (completed_reads h) obs.
+
+Lemma rds_spec : forall k x,
+  In x (rds k) <-> In x (inv_ids h) /\ is_read h x = true /\ is_completed h x = true /\ obs x = k.
+Proof.
+  intros k x. unfold rds. rewrite reads_at_spec, completed_reads_spec. tauto.
+Qed.
+
+Lemma rds_reads : forall k x, In x (rds k) -> is_read h x = true.
+Proof. intros k x H. apply rds_spec in H. tauto. Qed.
+
+Lemma rds_completed : forall k x, In x (rds k) -> exists j r, find_comp h x = Some (j, r).
+Proof.
+  intros k x H. apply rds_spec in H. destruct H as [_ [_ [Hc _]]].
+  unfold is_completed in Hc. destruct (find_comp h x) as [[j r]|]; [|discriminate].
+  exists j, r. reflexivity.
+Qed.
+
+Lemma cmt_mono : forall p q, p <= q -> cmt p <= cmt q.
+Proof. destruct H02 as [M _]. exact M. Qed.
+
+Lemma P_from_cmt : forall a b k,
+  cmt (inv_pos h a) <= k ->
+  (forall j r, find_comp h b = Some (j, r) -> S k <= cmt j) ->
+  precedes_ok h a b.
+Proof.
+  intros a b k Ha Hb j r Hc. specialize (Hb j r Hc).
+  destruct (le_lt_dec j (inv_pos h a)) as [Hle|Hlt]; [|exact Hlt].
+  pose proof (cmt_mono _ _ Hle). lia.
+Qed.
+
+Lemma read_lo : forall x k, In x (rds k) -> cmt (inv_pos h x) <= k.
+Proof.
+  intros x k Hin. destruct (rds_completed k x Hin) as [j [r Hc]].
+  apply rds_spec in Hin. destruct Hin as [_ [Hr [_ Ho]]].
+  destruct (H06 x j r Hc Hr) as [A _]. lia.
+Qed.
+
+Lemma read_hi : forall x k j r, In x (rds k) -> find_comp h x = Some (j, r) -> k <= cmt j.
+Proof.
+  intros x k j r Hin Hc. apply rds_spec in Hin. destruct Hin as [_ [Hr [_ Ho]]].
+  destruct (H06 x j r Hc Hr) as [_ B]. lia.
+Qed.
+
+Lemma write_hi : forall w idx j r,
+  nth_error log idx = Some w -> find_comp h w = Some (j, r) -> S idx <= cmt j.
+Proof.
+  intros w idx j r Hn Hc. destruct H05 as [Hnd Hw]. destruct H12 as [Hap _].
+  assert (Hin : In w log) by (eapply nth_error_In; exact Hn).
+  destruct (Hap w j r Hc (Hw w Hin)) as [idx' [Hn' Hlt]].
+  assert (idx = idx').
+  { rewrite NoDup_nth_error in Hnd. apply Hnd.
+    - apply nth_error_Some. rewrite Hn. discriminate.
+    - rewrite Hn, Hn'. reflexivity. }
+  subst. lia.
+Qed.
+
+Lemma weave_hi : forall t pre k,
+  log = pre ++ t -> length pre = k ->
+  forall b, In b (weave_from rds k t) ->
+  forall j r, find_comp h b = Some (j, r) -> k <= cmt j.
+Proof.
+  induction t as [|w t IH]; intros pre k E L b Hb j r Hc; cbn in Hb.
+  - eapply read_hi; eassumption.
+  - apply in_app_or in Hb. destruct Hb as [Hb|[<-|Hb]].
+    + eapply read_hi; eassumption.
+    + assert (Hn : nth_error log k = Some w) by (rewrite E, <- L; apply nth_error_app_len).
+      pose proof (write_hi w k j r Hn Hc). lia.
+    + assert (S k <= cmt j); [|lia].
+      apply (IH (pre ++ [w]) (S k)) with (b := b) (r := r); try assumption.
+      * rewrite <- app_assoc. exact E.
+      * rewrite app_length. cbn. lia.
+Qed.
+
+Lemma self_prec : forall a, precedes_ok h a a.
+Proof.
+  intros a j r Hc. destruct (wf_inv_before_comp h a j r Hwf Hc) as [i [o [Hf Hlt]]].
+  unfold inv_pos. rewrite Hf. exact Hlt.
+Qed.
+
+Lemma reads_fop : forall k, ForallOrdPairs (precedes_ok h) (rds k).
+Proof.
+  intros k. destruct Hwf as [Hnd _].
+  apply FOP_impl_In with (R := fun a b => inv_pos h a < inv_pos h b).
+  - unfold rds, reads_at, completed_reads. apply FOP_filter. apply FOP_filter.
+    apply inv_ids_sorted. exact Hnd.
+  - intros a b _ _ Hlt j r Hc. pose proof (self_prec b j r Hc). lia.
+Qed.
+
+Lemma weave_fop : forall t pre k,
+  log = pre ++ t -> length pre = k ->
+  ForallOrdPairs (precedes_ok h) (weave_from rds k t).
+Proof.
+  induction t as [|w t IH]; intros pre k E L; cbn.
+  - apply reads_fop.
+  - assert (Hn : nth_error log k = Some w) by (rewrite E, <- L; apply nth_error_app_len).
+    assert (E' : log = (pre ++ [w]) ++ t) by (rewrite <- app_assoc; exact E).
+    assert (L' : length (pre ++ [w]) = S k) by (rewrite app_length; cbn; lia).
+    apply FOP_app.
+    + apply reads_fop.
+    + constructor.
+      * rewrite Forall_forall. intros b Hb. apply P_from_cmt with (k := k).
+        -- apply H03. exact Hn.
+        -- intros j r Hc. apply (weave_hi t (pre ++ [w]) (S k) E' L' b Hb j r Hc).
+      * apply (IH (pre ++ [w]) (S k) E' L').
+    + intros a b Ha Hb. apply P_from_cmt with (k := k).
+      * apply read_lo. exact Ha.
+      * intros j r Hc. destruct Hb as [<-|Hb].
+        -- apply (write_hi w k j r Hn Hc).
+        -- apply (weave_hi t (pre ++ [w]) (S k) E' L' b Hb j r Hc).
+Qed.
+
+Lemma weave_nodup : forall t pre k,
+  log = pre ++ t -> length pre = k -> NoDup (weave_from rds k t).
+Proof.
+  assert (Hrk : forall k, NoDup (rds k)).
+  { intros k. unfold rds, reads_at, completed_reads.
+    apply NoDup_filter_keep. apply NoDup_filter_keep. apply Hwf. }
+  destruct H05 as [Hnd Hw].
+  induction t as [|w t IH]; intros pre k E L; cbn; [apply Hrk|].
+  assert (E' : log = (pre ++ [w]) ++ t) by (rewrite <- app_assoc; exact E).
+  assert (L' : length (pre ++ [w]) = S k) by (rewrite app_length; cbn; lia).
+  assert (Hint : forall x, In x t -> In x log).
+  { intros x Hx. rewrite E. apply in_or_app. right. right. exact Hx. }
+  assert (Hwl : In w log) by (rewrite E; apply in_or_app; right; left; reflexivity).
+  apply NoDup_app_intro.
+  - apply Hrk.
+  - constructor.
+    + intros Hin. apply weave_In_inv in Hin. destruct Hin as [Hin|[k' [_ [_ Hin]]]].
+      * rewrite E in Hnd. apply NoDup_remove_2 in Hnd. apply Hnd. apply in_or_app. right. exact Hin.
+      * apply (read_not_write h w); [eapply rds_reads; exact Hin|apply Hw; exact Hwl].
+    + apply (IH (pre ++ [w]) (S k) E' L').
+  - intros a Ha [<-|Hin].
+    + apply (read_not_write h w); [eapply rds_reads; exact Ha|apply Hw; exact Hwl].
+    + apply weave_In_inv in Hin. destruct Hin as [Hin|[k' [Hk [_ Hin]]]].
+      * apply (read_not_write h a); [eapply rds_reads; exact Ha|apply Hw; apply Hint; exact Hin].
+      * apply rds_spec in Ha. apply rds_spec in Hin. lia.
+Qed.
+
+Lemma weave_linearizes : linearizes h (weave h log obs).
+Proof.
+  unfold weave. cbv zeta. change (reads_at (completed_reads h) obs) with rds.
+  pose proof H02 as [_ [Hlen [Hwres Hrres]]].
+  pose proof H12 as [Hap Hnref].
+  pose proof H05 as [Hnd Hw].
+  assert (Hcase : forall id j r, find_comp h id = Some (j, r) ->
+            (is_write h id = true /\ In id log) \/
+            (exists key, op_of h id = Some (OpRead key) /\ In id (rds (obs id)) /\ obs id <= length log)).
+  { intros id j r Hc. destruct (wf_inv_before_comp h id j r Hwf Hc) as [i [o [Hf _]]].
+    assert (Hop : op_of h id = Some o) by (unfold op_of; rewrite Hf; reflexivity).
+    destruct o as [k v|k].
+    - left. assert (Hiw : is_write h id = true) by (unfold is_write; rewrite Hop; reflexivity).
+      split; [exact Hiw|]. destruct (Hap id j r Hc Hiw) as [idx [Hn _]]. eapply nth_error_In. exact Hn.
+    - right. exists k. split; [exact Hop|].
+      assert (Hir : is_read h id = true) by (unfold is_read; rewrite Hop; reflexivity).
+      split.
+      + apply rds_spec. split; [eapply find_inv_In_ids; exact Hf|]. split; [exact Hir|].
+        split; [unfold is_completed; rewrite Hc; reflexivity|reflexivity].
+      + destruct (H06 id j r Hc Hir) as [_ B]. specialize (Hlen j). lia. }
+  split; [apply (weave_nodup log [] 0 eq_refl eq_refl)|].
+  split.
+  { intros id j r Hc. destruct (Hcase id j r Hc) as [[_ Hin]|[key [_ [Hin Hle]]]].
+    - apply weave_In_log. exact Hin.
+    - apply weave_In_read with (k' := obs id); [lia|lia|exact Hin]. }
+  split.
+  { intros id Hin. apply weave_In_inv in Hin. destruct Hin as [Hin|[k' [_ [_ Hin]]]].
+    - apply Hnref. exact Hin.
+    - destruct (rds_completed k' id Hin) as [j [r Hc]]. apply find_comp_resp in Hc.
+      unfold refused. rewrite Hc. reflexivity. }
+  split.
+  { assert (Hp : prec_ok h 0 (weave_from rds 0 log) = true).
+    { apply prec_ok_of_pairs.
+      - intros a Hin. apply weave_In_inv in Hin. destruct Hin as [Hin|[k' [_ [_ Hin]]]].
+        + destruct (is_write_op h a (Hw a Hin)) as [k [v Hop]].
+          destruct (op_of_find h a _ Hop) as [i Hf]. exists i, (OpWrite k v). exact Hf.
+        + destruct (is_read_op h a (rds_reads k' a Hin)) as [k Hop].
+          destruct (op_of_find h a _ Hop) as [i Hf]. exists i, (OpRead k). exact Hf.
+      - intros b j r _ Hc. destruct (wf_inv_before_comp h b j r Hwf Hc) as [i [o [_ Hlt]]]. lia.
+      - intros a _. apply self_prec.
+      - apply (weave_fop log [] 0 eq_refl eq_refl). }
+    destruct (prec_ok_pts h _ 0 Hp) as [pt [[Hl [P1 [P2 P3]]] _]].
+    exists pt. split; [exact Hl|]. split; [exact P1|]. split; [exact P2|exact P3]. }
+  intros id j r Hc.
+  destruct (weave_results h rds rds_reads log 0 kv_init) as [_ [W1 W2]].
+  destruct (Hcase id j r Hc) as [[Hiw _]|[key [Hop [Hin Hle]]]].
+  - apply W1. apply (Hwres id j r Hc Hiw).
+  - rewrite (Hrres id j r key Hc Hop).
+    specialize (W2 (obs id) id key (Nat.le_0_l _) Hle Hin Hop).
+    rewrite Nat.sub_0_r in W2. exact W2.
+Qed.
+
+Lemma linearizable_from_log_proved : linearizable_hist h /\ linearizes h (weave h log obs).
+Proof.
+  split; [|exact weave_linearizes]. split; [exact Hwf|]. exists (weave h log obs). exact weave_linearizes.
+Qed.
+
+End FromLog.
+
+(* completeness of the certificate checker's order test: any linearization order
+   passes the greedy precedence check *)
+Lemma linearizes_prec_ok : forall h lin, linearizes h lin -> prec_ok h 0 lin = true.
+Proof.
+  intros h lin [_ [_ [_ [[pt [Hl [P1 [P2 P3]]]] _]]]].
+  apply pts_prec_ok with (pt := pt).
+  - split; [exact Hl|]. split; [exact P1|]. split; [exact P2|exact P3].
+  - intros x p Hp.
+    assert (Hx : x < length lin) by (rewrite <- Hl; apply nth_error_Some; rewrite Hp; discriminate).
+    destruct (nth_error lin x) as [id|] eqn:E; [|apply nth_error_None in E; lia].
+    destruct (P1 x id p E Hp) as [i [o [_ Hlt]]]. lia.
+Qed.
+
+Lemma effect_points_iff_greedy_proved : forall h lin,
+  (exists pt, pts_ok h lin pt) <-> prec_ok h 0 lin = true.
+Proof.
+  intros h lin. split.
+  - intros [pt Hp]. apply pts_prec_ok with (pt := pt); [exact Hp|].
+    destruct Hp as [Hl [P1 _]]. intros x p Hp.
+    assert (Hx : x < length lin) by (rewrite <- Hl; apply nth_error_Some; rewrite Hp; discriminate).
+    destruct (nth_error lin x) as [id|] eqn:E; [|apply nth_error_None in E; lia].
+    destruct (P1 x id p E Hp) as [i [o [_ Hlt]]]. lia.
+  - intros H. destruct (prec_ok_pts h lin 0 H) as [pt [Hp _]]. exists pt. exact Hp.
+Qed.
+
+(* ---- a concrete instance of the hypotheses of the composition theorem -------- *)
+
+Lemma find_comp_in_resp_ids : forall h id j r, find_comp h id = Some (j, r) -> In id (resp_ids h).
+Proof.
+  intros h id j r H. apply find_comp_resp in H. revert id j H.
+  induction h as [|e t IH]; cbn; intros id j H; [discriminate|].
+  destruct e as [i0 o0|i0 oc0].
+  - apply shift_Some in H. destruct H as [n' [_ H]]. eapply IH. exact H.
+  - destruct (N.eqb i0 id) eqn:E.
+    + apply N.eqb_eq in E. left. exact E.
+    + apply shift_Some in H. destruct H as [n' [_ H]]. right. eapply IH. exact H.
+Qed.
+
+Definition ex_hist : history :=
+  [ Inv 1 (OpWrite 7 10); Inv 2 (OpWrite 7 20); Resp 1 (Completed (0, 1)%N);
+    Resp 2 Timeout; Inv 3 (OpRead 7); Inv 4 (OpWrite 7 30); Resp 4 Refused;
+    Resp 3 (Completed (20, 2)%N) ]%N.
+Definition ex_log : list opid := [1; 2]%N.
+Definition ex_obs (id : opid) : nat := if N.eqb id 3 then 2 else 0.
+Definition ex_cmt (p : nat) : nat := if Nat.leb p 1 then 0 else if Nat.leb p 3 then 1 else 2.
+
+Ltac ex_leb := repeat match goal with
+  | |- context [Nat.leb ?a ?b] => destruct (Nat.leb_spec a b)
+  end; try lia.
+
+Lemma ex_hyps :
+  wf_hist ex_hist /\
+  C05_at_most_once ex_hist ex_log /\
+  C02_state_machine_safety ex_hist ex_log ex_obs ex_cmt /\
+  C03_leader_completeness ex_hist ex_log ex_cmt /\
+  C12_completed_after_local_apply ex_hist ex_log ex_cmt /\
+  C06_read_index_not_stale ex_hist ex_obs ex_cmt.
+Proof.
+  assert (Hcomp : forall w j r, find_comp ex_hist w = Some (j, r) ->
+            (w = 1%N /\ j = 2 /\ r = (0, 1)%N) \/ (w = 3%N /\ j = 7 /\ r = (20, 2)%N)).
+  { intros w j r Hc. pose proof (find_comp_in_resp_ids _ _ _ _ Hc) as Hin. cbn in Hin.
+    destruct Hin as [<-|[<-|[<-|[<-|[]]]]]; vm_compute in Hc; try discriminate; inversion Hc; subst; tauto. }
+  split; [apply wf_histb_sound; vm_compute; reflexivity|].
+  split.
+  { split; [apply nodupb_NoDup; vm_compute; reflexivity|].
+    intros w [<-|[<-|[]]]; vm_compute; reflexivity. }
+  split.
+  { split; [|split; [|split]].
+    - intros p q Hpq. unfold ex_cmt. ex_leb.
+    - intros p. unfold ex_cmt. cbn. ex_leb.
+    - intros w j r Hc Hw. destruct (Hcomp w j r Hc) as [[-> [-> ->]]|[-> [-> ->]]].
+      + vm_compute. left. reflexivity.
+      + vm_compute in Hw. discriminate.
+    - intros rd j r k Hc Hop. destruct (Hcomp rd j r Hc) as [[-> [-> ->]]|[-> [-> ->]]].
+      + vm_compute in Hop. discriminate.
+      + vm_compute in Hop. inversion Hop; subst. vm_compute. reflexivity. }
+  split.
+  { intros w idx Hn. destruct idx as [|[|idx]]; cbn in Hn.
+    - inversion Hn; subst. vm_compute. lia.
+    - inversion Hn; subst. vm_compute. lia.
+    - destruct idx; discriminate. }
+  split.
+  { split.
+    - intros w j r Hc Hw. destruct (Hcomp w j r Hc) as [[-> [-> ->]]|[-> [-> ->]]].
+      + exists 0. split; [reflexivity|]. vm_compute. lia.
+      + vm_compute in Hw. discriminate.
+    - intros w [<-|[<-|[]]]; vm_compute; reflexivity. }
+  intros rd j r Hc Hr. destruct (Hcomp rd j r Hc) as [[-> [-> ->]]|[-> [-> ->]]].
+  - vm_compute in Hr. discriminate.
+  - vm_compute. lia.
 Qed.
